@@ -51,6 +51,22 @@ def events_for_disc(dfs, d, scratch, eid, curs=(36,), uis=UIS, want_inf=False, w
             e.update(pc)
             e["shown"] = [dict(dir=s[0], name=s[1], lock=s[2]) for s in pc["shown"]]
             ev.append(e)
+    if eid % 7 == 0 and d.variant == "DFS" and d.path.endswith(".ssd"):
+        # the same image under a directory and a stem that look like other image types: only the end of the name is a hint
+        import shutil as _sh
+        for sub, stem in (("discs.sdd", "game"), ("", "game.ddd.bak")):
+            ddir = os.path.join(scratch, "p%d" % eid, sub)
+            os.makedirs(ddir, exist_ok=True)
+            p2 = os.path.join(ddir, stem + ".ssd")
+            _sh.copy(d.path, p2)
+            o = common.run([dfs, "--file", p2, "--dir", "$", "cat", d.drive], env={"COLUMNS": "80"})
+            pc = discs.parse_cat(o.out, "acorn", 36) or dict(title_obs=[-1], cycle_obs=-1, opt_obs=-1, dens_obs="?", shown=[])
+            e = dict(e="cat", id=eid, rc=o.rc if o.rc is not None else -1, ui="default", cur=36,
+                     entries=[dict(dir=n[0], name=n[2], lock=n[1]) for n in nms], title_raw=d.title_raw, cycle=d.cycle, opt=d.opt, mfm=d.mfm)
+            e.update(pc)
+            e["shown"] = [dict(dir=s_[0], name=s_[1], lock=s_[2]) for s_ in pc["shown"]]
+            ev.append(e)
+            os.unlink(p2)
     if want_titles:
         o = common.run(base + ["show-titles", "0"])
         want = d.drive + ": "
